@@ -8,6 +8,13 @@ import Echse.Model.RrDly
 namespace Echse.Lemmas.RrOkBase
 open Echse.Rrule Echse.Instant Echse.Spec.RrOk
 
+/-- The one extra hypothesis of the `*_ok_partial` theorems.  It excludes an all-day seed (DTSTART a DATE,
+`H = ALL_DAY`) combined with BYMINUTE or BYSECOND parts and no BYHOUR: the fillers then take the hour from the seed and
+emit instants with `H = ALL_DAY` and a non-zero minute / second, which are not `WfInst`.  (An all-day seed with BYHOUR
+is fine: the results are timed instants.)  RFC 5545 forbids BYHOUR / BYMINUTE / BYSECOND altogether when DTSTART is a
+DATE, so `TimeOk` holds for every conforming rule. -/
+def TimeOk (r : Rule) (p : Inst) : Prop := p.H = allDay → r.H = [] → (r.M = [] ∧ r.S = [])
+
 /-! ### order keys -/
 
 def dkey (y m d : Nat) : Nat := (y * 256 + m) * 256 + d
